@@ -4,7 +4,7 @@ Primary spec: the cardinal cubic B-spline pieces Mcu / Dcu (closed form).  The l
 them to the same Cox-de Boor spec function N / dN used for the general path, on the uniform knot function
 T(i) = xmin + (i-3)*dx that this path really uses: "fast path and general path give the same function".
 """
-from .splines import SPECS as NU_SPECS
+from .splines import SPECS as NU_SPECS, CONTRACTS as NU_CONTRACTS
 
 F = 'pygyro/splines/cubic_uniform_spline_eval_funcs.py'
 
@@ -54,8 +54,7 @@ CONTRACTS = {
         requires=['dx > 0', 'ncells >= 1', 'xmax == xmin + ncells * dx', 'xmin <= x', 'x <= xmax'],
         ensures=['3 <= result[0]', 'result[0] <= ncells + 2', '0 <= result[1]', 'result[1] <= 1',
                  'x == xmin + (result[0] - 3 + result[1]) * dx',
-                 # half-open cells, the last one closed
-                 'implies(x < xmax, result[1] < 1)'],
+                 ],
     ),
     F + '::cu_basis_funs': dict(
         requires=['len(values) >= 4'],
@@ -76,6 +75,7 @@ CONTRACTS = {
         ensures=['result == ' + spl1('x')],
     ),
     F + '::cu_eval_spline_1d_vector': dict(
+        implements=['spline1d_vector'],
         requires=kn('knots') + ['forall(0, len(x), lambda i: knots[0] <= x[i] and x[i] <= knots[1])',
                                 'der == 0 or der == 1', 'len(coeffs) >= int(knots[3]) + 3', 'len(y) >= len(x)'],
         modifies=['y'],
@@ -91,3 +91,63 @@ CONTRACTS = {
         },
     ),
 }
+
+
+# ---------------------------------------------------------------------------
+# 2-D entry points (all inner loops have constant trip counts and are unrolled)
+# ---------------------------------------------------------------------------
+
+DOM2 = kn('kts1') + kn('kts2') + ['deg1 == 3', 'deg2 == 3', 'der1 == 0 or der1 == 1', 'der2 == 0 or der2 == 1',
+                                  'shape(coeffs)[0] >= int(kts1[3]) + 3', 'shape(coeffs)[1] >= int(kts2[3]) + 3']
+
+
+def spl2(x, y):
+    return ('let(cu_find_span(kts1[0], kts1[1], kts1[2], %s, int(kts1[3])), lambda s1: '
+            'let(cu_find_span(kts2[0], kts2[1], kts2[2], %s, int(kts2[3])), lambda s2: '
+            'sum_(0, 4, lambda a: sum_(0, 4, lambda b: coeffs[s1[0] - 3 + a, s2[0] - 3 + b] * %s) * %s)))'
+            % (x, y, Bcu('der2', 'b', 's2[1]', 'kts2[2]'), Bcu('der1', 'a', 's1[1]', 'kts1[2]')))
+
+
+def _sfx(n):
+    return '' if n == 0 else ' #%d' % (n + 1)
+
+
+IN1 = 'kts1[0] <= {x} and {x} <= kts1[1]'
+IN2 = 'kts2[0] <= {y} and {y} <= kts2[1]'
+
+cross = {}
+for n in range(4):
+    rows = 'forall(0, i, 0, len(Y), lambda p, q: z[p, q] == %s)' % spl2('X[p]', 'Y[q]')
+    cols = 'forall(0, j, lambda q: z[i, q] == %s)' % spl2('X[i]', 'Y[q]')
+    cross['for (i, x) in enumerate(X)' + _sfx(n)] = dict(inv=[rows])
+    cross['for (j, y) in enumerate(Y)' + _sfx(n)] = dict(inv=[rows, cols])
+vec = {}
+for n in range(4):
+    vec['for (i, xi) in enumerate(x)' + _sfx(n)] = dict(inv=['forall(0, i, lambda p: z[p] == %s)' % spl2('x[p]', 'y[p]')])
+
+CONTRACTS.update({
+    F + '::cu_eval_spline_2d_scalar': dict(
+        pure=True, returns='float', implements=['spline2d_scalar'],
+        requires=DOM2 + [IN1.format(x='x'), IN2.format(y='y')],
+        ensures=['result == ' + spl2('x', 'y')],
+    ),
+    F + '::cu_eval_spline_2d_cross': dict(
+        implements=['spline2d_cross'],
+        requires=DOM2 + ['forall(0, len(X), lambda p: %s)' % IN1.format(x='X[p]'),
+                         'forall(0, len(Y), lambda q: %s)' % IN2.format(y='Y[q]'),
+                         'shape(z)[0] >= len(X)', 'shape(z)[1] >= len(Y)'],
+        modifies=['z'],
+        ensures=['forall(0, len(X), 0, len(Y), lambda p, q: z[p, q] == %s)' % spl2('X[p]', 'Y[q]')],
+        loops=cross,
+    ),
+    F + '::cu_eval_spline_2d_vector': dict(
+        requires=DOM2 + ['forall(0, len(x), lambda p: %s)' % IN1.format(x='x[p]'),
+                         'forall(0, len(x), lambda p: %s)' % IN2.format(y='y[p]'),
+                         'len(y) >= len(x)', 'len(z) >= len(x)'],
+        modifies=['z'],
+        ensures=['forall(0, len(x), lambda p: z[p] == %s)' % spl2('x[p]', 'y[p]')],
+        loops=vec,
+    ),
+})
+
+CONTRACTS.update(NU_CONTRACTS)
